@@ -4,9 +4,10 @@ from lib import vlib
 
 DEV_CFGS = {"gc_ignores_outside": "StreamTraceDevGc", "flush_compaction_race": "StreamTraceDevRace"}
 
-MC_IDEAL = ["MCStreaming", "MCStreamingConc", "MCStreamingGc"]
+MC_IDEAL = ["MCStreaming", "MCStreamingConc", "MCStreamingGc", "MCStreamingCkpt"]
 MC_ASBUILT = [("MCStreamingAsBuiltDrop", "NothingSilentlyDropped"), ("MCStreamingAsBuiltRace", "RecoveryStable"),
-              ("MCStreamingAsBuiltLatest", "RecoveryStable"), ("MCStreamingAsBuiltGc", "RecoveryStable")]
+              ("MCStreamingAsBuiltLatest", "RecoveryStable"), ("MCStreamingAsBuiltGc", "RecoveryStable"),
+              ("MCStreamingAsBuiltCkpt", "RecoveryStable")]
 
 
 def model_check(rep, wd, which_asbuilt):
